@@ -335,6 +335,8 @@ func (g *c19Gen) setupBlock(b int) ([][]byte, []string) {
 			add(g.acc(i+4), "lock shares", &lockuptypes.MsgLockTokens{Owner: g.acc(i + 4).Addr.String(), Duration: du + time.Duration(i)*time.Minute, Coins: sdk.NewCoins(sdk.NewCoin("gamm/pool/1", gammtypes.OneShare.MulRaw(int64(1+i))))})
 			add(g.acc(i+4), "lock shares 2", &lockuptypes.MsgLockTokens{Owner: g.acc(i + 4).Addr.String(), Duration: 7*time.Hour + time.Duration(7*i)*time.Second, Coins: sdk.NewCoins(sdk.NewCoin("gamm/pool/1", gammtypes.OneShare.QuoRaw(int64(2+i))))})
 		}
+		// three gauges on one lock denom with one start time; the first one pays for a single epoch and finishes first
+		add(g.acc(2), "gauge one-epoch", &incentivestypes.MsgCreateGauge{IsPerpetual: false, Owner: g.acc(2).Addr.String(), DistributeTo: lockuptypes.QueryCondition{LockQueryType: lockuptypes.ByDuration, Denom: "gamm/pool/1", Duration: time.Hour}, Coins: sdk.NewCoins(c("uosmo", 900000007)), StartTime: ch.Ctx.BlockTime(), NumEpochsPaidOver: 1})
 		add(g.acc(0), "gauge", &incentivestypes.MsgCreateGauge{IsPerpetual: false, Owner: g.acc(0).Addr.String(), DistributeTo: lockuptypes.QueryCondition{LockQueryType: lockuptypes.ByDuration, Denom: "gamm/pool/1", Duration: time.Hour}, Coins: sdk.NewCoins(c("uosmo", 7000000000)), StartTime: ch.Ctx.BlockTime(), NumEpochsPaidOver: 5})
 		add(g.acc(1), "gauge perpetual", &incentivestypes.MsgCreateGauge{IsPerpetual: true, Owner: g.acc(1).Addr.String(), DistributeTo: lockuptypes.QueryCondition{LockQueryType: lockuptypes.ByDuration, Denom: "gamm/pool/1", Duration: 3 * time.Hour}, Coins: sdk.NewCoins(c("uosmo", 3000000011)), StartTime: ch.Ctx.BlockTime(), NumEpochsPaidOver: 1})
 	case 3:
@@ -388,7 +390,7 @@ func (g *c19Gen) randomBlock() ([][]byte, []string) {
 		d := ""
 		kind := r.Intn(19)
 		if r.Intn(5) < 2 {
-			kind = 19 + r.Intn(15)
+			kind = 19 + r.Intn(16)
 		}
 		if g.forceKind != 0 && k == 0 {
 			kind = g.forceKind
@@ -535,6 +537,31 @@ func (g *c19Gen) randomBlock() ([][]byte, []string) {
 					continue
 				}
 				msg, d = &sftypes.MsgAddToConcentratedLiquiditySuperfluidPosition{PositionId: sfp[r.Intn(len(sfp))], Sender: a.Addr.String(), TokenDesired0: c("bar", 1000+r.I64n(100000000)), TokenDesired1: c("uosmo", 1000+r.I64n(100000000))}, "superfluid cl-add"
+			}
+		case 34: // a swap or single-asset join larger than the pool's own reserve of the token going in
+			pid := uint64([]int{1, 2, 4, 5, 3}[r.Intn(5)])
+			denoms, err := ch.App.PoolManagerKeeper.RouteGetPoolDenoms(ch.Ctx, pid)
+			if err != nil || len(denoms) < 2 {
+				continue
+			}
+			din := denoms[r.Intn(len(denoms))]
+			dout := denoms[r.Intn(len(denoms))]
+			if din == dout {
+				continue
+			}
+			pl, err := ch.App.PoolManagerKeeper.GetPool(ch.Ctx, pid)
+			if err != nil {
+				continue
+			}
+			reserve := ch.Bal(pl.GetAddress(), din)
+			if !reserve.IsPositive() {
+				continue
+			}
+			amt := reserve.MulRaw(1 + r.I64n(3)).AddRaw(r.I64n(1000000))
+			if r.Intn(3) == 0 && pid != 3 && pid != 2 {
+				msg, d = &gammtypes.MsgJoinSwapExternAmountIn{Sender: a.Addr.String(), PoolId: pid, TokenIn: sdk.NewCoin(din, amt), ShareOutMinAmount: sdkmath.OneInt()}, "whale join"
+			} else {
+				msg, d = &poolmanagertypes.MsgSwapExactAmountIn{Sender: a.Addr.String(), Routes: []poolmanagertypes.SwapAmountInRoute{{PoolId: pid, TokenOutDenom: dout}}, TokenIn: sdk.NewCoin(din, amt), TokenOutMinAmount: sdkmath.OneInt()}, "whale swap"
 			}
 		case 32: // a transaction that creates a pool and then fails as a whole (the pool id is handed out again later)
 			bm := balancer.NewMsgCreateBalancerPool(a.Addr, balancer.NewPoolParams(osmomath.MustNewDecFromStr("0.003"), osmomath.ZeroDec(), nil),
